@@ -11,7 +11,8 @@ Inductive op :=
 | ODrop (n : N)
 | OGlobalize (n reservation : N) (has_modules : bool)
 | ONew (ident : N) (def : option bptype)      (* def = blueprint type of (actor's package, ident) *)
-| OState (handle : N).
+| OState (handle : N)
+| OKvOpen (n : N).                             (* key_value_store_open_entry on node n *)
 
 Inductive obs :=
 | ObsOk                  (* the call succeeded *)
@@ -40,6 +41,7 @@ Definition check (c : case) : bool :=
       | inr _ => agree Granted (k_obs c)
       | inl e => agree e (k_obs c)
       end
+  | OKvOpen n => agree (kv_open_check h a n) (k_obs c)
   | OState hd =>
       match resolve_state_handle h a hd with
       | inr (n, _) => match k_obs c with
